@@ -26,7 +26,7 @@ or with the CLI: PYTHONPATH={wt} /venv/bin/python -m openapi_python_client gener
 Generated packages need httpx, attrs and python-dateutil, which /venv has; import them by putting the parent of outdir on sys.path. httpx.MockTransport is handy to observe requests without a network (clients accept httpx_args={{"transport": ...}}).
 
 DELIVERABLES - create the directory {wt}/SEEDED/ with, for each change X in {{A, B}}:
-  - SEEDED/X/patch.diff : the change as a unified diff produced with `git -C {wt} diff` (it must apply with `git apply` to a clean checkout of this same commit). Produce A's diff with only A applied and B's diff with only B applied (use `git -C {wt} stash` / `git -C {wt} checkout -- openapi_python_client` between them).
+  - SEEDED/X/patch.diff : the change as a unified diff produced with `git -C {wt} diff` (it must apply with `git apply` to a clean checkout of this same commit). Produce A's diff with only A applied and B's diff with only B applied (save each with `git -C {wt} diff > file` and reset with `git -C {wt} checkout -- openapi_python_client` between them; do NOT use `git stash`: the stash is shared with other people's worktrees of the same repository).
   - SEEDED/X/demo.py : a small self-contained program (no pytest needed) that takes the path of a checkout as its first argument (it must set sys.path / PYTHONPATH to use THAT checkout's openapi_python_client, e.g. by running the generator in a subprocess with PYTHONPATH set, or sys.path.insert(0, argv[1]) before importing), builds the specific input(s), runs the generator (and, if needed, the generated code), and exits 0 when the property holds and 1 (printing what it saw) when it is violated. It must PASS (exit 0) on the unmodified checkout and FAIL (exit 1) with the change applied. Use a temporary directory under /tmp for outputs and clean it up.
   - SEEDED/X/NOTES.md : 5-10 lines: what the change does, why it breaks the property, and exactly what is needed for it to manifest (which input feature / option / sequence), plus the commands you ran and their results (existing tests with the change; demo without and with the change).
 Leave the worktree itself CLEAN of the changes at the end (git checkout -- openapi_python_client), keeping only the SEEDED/ directory (untracked).
